@@ -38,6 +38,15 @@ Proof.
   clear. revert s. induction n; intro s; simpl; [reflexivity|]. now rewrite IHn.
 Qed.
 
+(* a test the translated loops make on the pointer types they strip (t.Name() != "": a defined pointer
+   type, fix F-C12m) never fires in the universe: it has no defined pointer types *)
+Lemma loop_ptr_guard : forall (R S : Type) (r : R) (body : ty -> S -> lres R S) t s,
+  loop_ptr (fun t s => if rt_named t then LRet r else body t s) t s = loop_ptr body t s.
+Proof.
+  intros R S r body t. induction t; intro s; try reflexivity.
+  simpl. destruct (body (TPtr t) s); [reflexivity|apply IHt].
+Qed.
+
 Lemma loop_ptr_TPtr : forall (R S : Type) (body : ty -> S -> lres R S) e s,
   loop_ptr body (TPtr e) s = match body (TPtr e) s with LRet r => LRet r | LCont s' => loop_ptr body e s' end.
 Proof. reflexivity. Qed.
@@ -335,7 +344,7 @@ Section Agree.
         destruct (mapM _ fs); reflexivity.
       - (* VNilPtr *)
         change (ty_of (VNilPtr t)) with (TPtr t). rewrite loop_ptr_TPtr. unfold body at 1.
-        cbn -[loop_ptr]. rewrite loop_ptr_count. unfold K0. cbn -[Nat.iter].
+        cbn -[loop_ptr]. rewrite ?loop_ptr_guard, loop_ptr_count. unfold K0. cbn -[Nat.iter].
         unfold lookup_name. destruct (rm_lookup reg (snd (strip_ptr t))) as [key|]; cbn -[Nat.iter]; [|reflexivity].
         rewrite iter_incr_PointerNum. cbn. rewrite Nat.sub_0_r.
         replace (fst (strip_ptr t) + S pn) with (S (pn + fst (strip_ptr t))) by lia. reflexivity.
@@ -345,7 +354,7 @@ Section Agree.
         simpl in Hw. apply andb_true_iff in Hw. destruct Hw as [Hi Hw]. apply negb_true_iff in Hi.
         apply (IHw (S pn)); [apply wt_not_box; assumption | assumption | exact Hself].
       - (* VSlice *)
-        unfold K0. rewrite loop_ptr_nonptr by reflexivity. cbn -[loop_ptr]. rewrite loop_ptr_count.
+        unfold K0. rewrite loop_ptr_nonptr by reflexivity. cbn -[loop_ptr]. rewrite ?loop_ptr_guard, loop_ptr_count.
         cbn -[Nat.iter]. rewrite iter_incr_SliceValuePointerNum. cbn.
         set (es := match o with Some es => es | None => [] end).
         assert (Hes : forall u, In u es -> self u = enc0 u)
@@ -358,7 +367,7 @@ Section Agree.
             rewrite slice_loop_final by reflexivity.
         destruct (mapM _ es); cbn; try reflexivity. now rewrite Nat.add_0_r.
       - (* VMap *)
-        unfold K0. rewrite loop_ptr_nonptr by reflexivity. cbn -[loop_ptr]. rewrite loop_ptr_count.
+        unfold K0. rewrite loop_ptr_nonptr by reflexivity. cbn -[loop_ptr]. rewrite ?loop_ptr_guard, loop_ptr_count.
         cbn -[Nat.iter loop_ptr]. rewrite iter_incr_MapKeyPointerNum. cbn -[loop_ptr].
         set (kvs := match o with Some kvs => kvs | None => [] end).
         assert (Hkvs : forall u, In u (map snd kvs) -> self u = enc0 u)
@@ -369,7 +378,7 @@ Section Agree.
                                   do jk <- enc_key JK kenc (fst kv); Ok (jk, i)) kvs)
             by (destruct o; reflexivity) end.
         unfold elem_key, lookup_name. destruct (rm_lookup reg (snd (strip_ptr k))) as [kkey|]; cbn -[loop_ptr]; [|reflexivity].
-        rewrite loop_ptr_count. cbn -[Nat.iter]. rewrite iter_incr_MapValuePointerNum. cbn.
+        rewrite ?loop_ptr_guard, loop_ptr_count. cbn -[Nat.iter]. rewrite iter_incr_MapValuePointerNum. cbn.
         destruct (rm_lookup reg (snd (strip_ptr t))) as [vkey|]; cbn; [|reflexivity].
         rewrite andb_false_r. cbn. erewrite loop_list_ext_in
               by (intros kv s Hin; unfold rv_Interface, iter_Value; rewrite Hkvs by (apply in_map; exact Hin); reflexivity).
@@ -378,7 +387,7 @@ Section Agree.
       - (* VIface *) discriminate Hnb.
       - (* VArray *)
         assert (Hes : forall u, In u es -> self u = enc0 u) by exact Hself.
-        unfold K0. rewrite loop_ptr_nonptr by reflexivity. cbn -[loop_ptr]. rewrite loop_ptr_count.
+        unfold K0. rewrite loop_ptr_nonptr by reflexivity. cbn -[loop_ptr]. rewrite ?loop_ptr_guard, loop_ptr_count.
         cbn -[Nat.iter]. rewrite iter_incr_SliceValuePointerNum. cbn.
         unfold elem_key, lookup_name. destruct (rm_lookup reg (snd (strip_ptr t))) as [key|]; cbn; [|reflexivity].
         rewrite andb_false_r. cbn. erewrite loop_list_ext_in
@@ -389,7 +398,7 @@ Section Agree.
         clear IHw. simpl in Hw. apply andb_true_iff in Hw. destruct Hw as [Hc Hw].
         destruct w; try discriminate Hc.
         + (* defined slice *)
-          unfold K0. rewrite loop_ptr_nonptr by reflexivity. cbn -[loop_ptr]. rewrite loop_ptr_count.
+          unfold K0. rewrite loop_ptr_nonptr by reflexivity. cbn -[loop_ptr]. rewrite ?loop_ptr_guard, loop_ptr_count.
           cbn -[Nat.iter]. rewrite iter_incr_SliceValuePointerNum. cbn.
           set (es := match o with Some es => es | None => [] end).
         assert (Hes : forall u, In u es -> self u = enc0 u)
@@ -412,7 +421,7 @@ Section Agree.
                destruct (mapM _ es); cbn; try reflexivity. now rewrite Nat.add_0_r.
             -- destruct (rm_lookup reg (snd (strip_ptr t))); reflexivity.
         + (* defined map *)
-          unfold K0. rewrite loop_ptr_nonptr by reflexivity. cbn -[loop_ptr]. rewrite loop_ptr_count.
+          unfold K0. rewrite loop_ptr_nonptr by reflexivity. cbn -[loop_ptr]. rewrite ?loop_ptr_guard, loop_ptr_count.
           cbn -[Nat.iter loop_ptr]. rewrite iter_incr_MapKeyPointerNum. cbn -[loop_ptr].
           set (kvs := match o with Some kvs => kvs | None => [] end).
         assert (Hkvs : forall u, In u (map snd kvs) -> self u = enc0 u)
@@ -426,7 +435,7 @@ Section Agree.
           destruct (rm_lookup reg (TDef d (TMap k t))) as [ck|] eqn:Eck.
           * rewrite !andb_false_r.
             destruct (rm_lookup reg (snd (strip_ptr k))) as [kkey|]; cbn -[loop_ptr]; [|reflexivity].
-            rewrite loop_ptr_count. cbn -[Nat.iter]. rewrite iter_incr_MapValuePointerNum. cbn.
+            rewrite ?loop_ptr_guard, loop_ptr_count. cbn -[Nat.iter]. rewrite iter_incr_MapValuePointerNum. cbn.
             destruct (rm_lookup reg (snd (strip_ptr t))) as [vkey|]; cbn; [|reflexivity].
             rewrite (rm_lookup_nonempty _ _ Eck), !andb_false_r.
             erewrite loop_list_ext_in
@@ -435,20 +444,20 @@ Section Agree.
             destruct (mapM _ kvs); cbn; try reflexivity. now rewrite !Nat.add_0_r.
           * destruct pn; cbn -[loop_ptr].
             -- destruct (rm_lookup reg (snd (strip_ptr k))) as [kkey|]; cbn -[loop_ptr]; [|reflexivity].
-               rewrite loop_ptr_count. cbn -[Nat.iter]. rewrite iter_incr_MapValuePointerNum. cbn.
+               rewrite ?loop_ptr_guard, loop_ptr_count. cbn -[Nat.iter]. rewrite iter_incr_MapValuePointerNum. cbn.
                destruct (rm_lookup reg (snd (strip_ptr t))) as [vkey|]; cbn; [|reflexivity].
                erewrite loop_list_ext_in
               by (intros kv s Hin; unfold rv_Interface, iter_Value; rewrite Hkvs by (apply in_map; exact Hin); reflexivity).
             rewrite entries_loop_final by reflexivity.
                destruct (mapM _ kvs); cbn; try reflexivity. now rewrite !Nat.add_0_r.
             -- destruct (rm_lookup reg (snd (strip_ptr k))) as [kkey|]; cbn -[loop_ptr]; [|reflexivity].
-               rewrite loop_ptr_count. cbn -[Nat.iter]. rewrite iter_incr_MapValuePointerNum. cbn.
+               rewrite ?loop_ptr_guard, loop_ptr_count. cbn -[Nat.iter]. rewrite iter_incr_MapValuePointerNum. cbn.
                destruct (rm_lookup reg (snd (strip_ptr t))); reflexivity.
         + (* an interface value is not a container *)
           simpl in Hw. destruct it; discriminate.
         + (* defined array *)
           assert (Hes : forall u, In u es -> self u = enc0 u) by exact Hself.
-          unfold K0. rewrite loop_ptr_nonptr by reflexivity. cbn -[loop_ptr]. rewrite loop_ptr_count.
+          unfold K0. rewrite loop_ptr_nonptr by reflexivity. cbn -[loop_ptr]. rewrite ?loop_ptr_guard, loop_ptr_count.
           cbn -[Nat.iter]. rewrite iter_incr_SliceValuePointerNum. cbn.
           unfold elem_key, lookup_name, rm_get.
           destruct (rm_lookup reg (TDef d (TArray (List.length es) t))) as [ck|] eqn:Eck.
@@ -630,7 +639,7 @@ Theorem gen_GenericRegister_agrees : forall reg T key,
 Proof.
   intros reg T key.
   unfold Gen.SerCode.GenericRegister. try unfold Model.SerCodeRef.GenericRegister.
-  cbn -[loop_ptr]. rewrite loop_ptr_count. cbn.
+  cbn -[loop_ptr]. rewrite ?loop_ptr_guard, loop_ptr_count. cbn.
   all: unfold register, gm_lookup, gm_put, grm_put, opt_some; rewrite grm_lookup_rm_of.
   all: destruct (m_lookup reg key); [reflexivity|].
   all: destruct (rm_lookup reg (snd (strip_ptr T))); [reflexivity|].
